@@ -358,17 +358,20 @@ func c15Scenarios(tier string) []Scenario {
 	}
 	if tier == "thorough" {
 		return []Scenario{
-			{"2x1", []string{"R", "W"}, lv([3]int{0, 0, 0}, [3]int{1, 1, 1}, [3]int{2, 1, 2}, [3]int{2, 2, 3}, [3]int{3, 2, 4})},
-			{"2x2", []string{"RS", "WP"}, lv([3]int{0, 0, 0}, [3]int{1, 1, 1}, [3]int{2, 1, 2}, [3]int{3, 2, 3})},
-			{"2xR", []string{"R", "R"}, lv([3]int{0, 0, 0}, [3]int{1, 1, 1}, [3]int{2, 1, 2}, [3]int{3, 2, 3})},
-			{"3x1", []string{"R", "W", "R"}, lv([3]int{0, 0, 0}, [3]int{1, 1, 1}, [3]int{2, 1, 2}, [3]int{3, 2, 3})},
-			{"3x211", []string{"RS", "W", "P"}, lv([3]int{0, 0, 0}, [3]int{1, 1, 1}, [3]int{2, 1, 2}, [3]int{3, 2, 3})},
+			{"2x1", []string{"R", "W"}, lv([3]int{0, 0, 0}, [3]int{1, 1, 1}, [3]int{2, 1, 2}, [3]int{2, 2, 3}, [3]int{3, 2, 4}), false},
+			{"2x2", []string{"RS", "WP"}, lv([3]int{0, 0, 0}, [3]int{1, 1, 1}, [3]int{2, 1, 2}, [3]int{3, 2, 3}), false},
+			{"2xR", []string{"R", "R"}, lv([3]int{0, 0, 0}, [3]int{1, 1, 1}, [3]int{2, 1, 2}, [3]int{3, 2, 3}), false},
+			{"3x1", []string{"R", "W", "R"}, lv([3]int{0, 0, 0}, [3]int{1, 1, 1}, [3]int{2, 1, 2}, [3]int{3, 2, 3}), false},
+			{"3x211", []string{"RS", "W", "P"}, lv([3]int{0, 0, 0}, [3]int{1, 1, 1}, [3]int{2, 1, 2}, [3]int{3, 2, 3}), false},
+			{"srv2x2", []string{"RS", "WP"}, lv([3]int{0, 0, 0}, [3]int{1, 0, 1}, [3]int{2, 0, 2}, [3]int{3, 0, 3}), true},
+			{"srv3x1", []string{"R", "W", "R"}, lv([3]int{0, 0, 0}, [3]int{1, 0, 1}, [3]int{2, 0, 2}, [3]int{3, 0, 3}), true},
 		}
 	}
 	return []Scenario{
-		{"2x1", []string{"R", "W"}, lv([3]int{0, 0, 0}, [3]int{1, 1, 1}, [3]int{2, 1, 2}, [3]int{2, 2, 3})},
-		{"2x2", []string{"RS", "WP"}, lv([3]int{0, 0, 0}, [3]int{1, 1, 1}, [3]int{2, 1, 2})},
-		{"2xR", []string{"R", "R"}, lv([3]int{0, 0, 0}, [3]int{1, 1, 1}, [3]int{2, 1, 2})}, // two reads in flight: replies decoded back to back
+		{"2x1", []string{"R", "W"}, lv([3]int{0, 0, 0}, [3]int{1, 1, 1}, [3]int{2, 1, 2}, [3]int{2, 2, 3}), false},
+		{"2x2", []string{"RS", "WP"}, lv([3]int{0, 0, 0}, [3]int{1, 1, 1}, [3]int{2, 1, 2}), false},
+		{"2xR", []string{"R", "R"}, lv([3]int{0, 0, 0}, [3]int{1, 1, 1}, [3]int{2, 1, 2}), false},     // two reads in flight: replies decoded back to back
+		{"srv2x2", []string{"RS", "WP"}, lv([3]int{0, 0, 0}, [3]int{1, 0, 1}, [3]int{2, 0, 2}), true}, // the real rpc.Server as the peer
 	}
 }
 
